@@ -315,9 +315,6 @@ class MolQueryReader(object):
                 molquery.AppendAtomConstraint(constraint, idx)
 
         assert tree[1][0].name == 'AtomLabel'
-        if tree[1][0].name in molquery.atom_names:
-            raise RINGReaderError('Atom Label ' + tree[1][0]
-                                  + ' is alreadyd declared!')
         molquery.atom_names.append(tree[1][1])
         assert tree[2][0].name == 'BondType'
         bondtype = tree[2][1:][0]
